@@ -501,6 +501,7 @@ pub fn def() -> PropDef {
         needs_pairing: false,
         subs: vec![
             Box::new(crate::engine::EnumSub { name: "long-history", rule: super::longhist::RULE, run: run_long_history, replay: super::longhist::replay, exhaustive: false }),
+            Box::new(crate::engine::EnumSub { name: "two-input-bursts", rule: super::longhist::BURST_RULE, run: run_two_input_bursts, replay: super::longhist::replay_burst, exhaustive: false }),
             Box::new(Sub { name: "g1-lists", rule: "G1 lists through sum_of_products / _pippinger(window) / _precomp_256", quick: 1_200, thorough: 40_000, strategy: || boxed(msm_strategy(0)), check: check_msm_any }),
             Box::new(Sub { name: "g2-lists", rule: "G2 lists, same entry points", quick: 500, thorough: 15_000, strategy: || boxed(msm_strategy(1)), check: check_msm_any }),
             Box::new(Sub { name: "after-rejected-call", rule: "a valid list, then the same list with bit 255 set in one scalar (outside the property's domain; the panic, if any, is caught as a long-lived worker would), then 1..2 valid lists on the same thread, each compared with the model: a rejected call must not leave anything behind", quick: 200, thorough: 6_000, strategy: || boxed(after_rejected_strategy()), check: check_after_rejected }),
